@@ -97,11 +97,11 @@ type model interface {
 
 type family struct {
 	typ       string
-	kinds     []string                  // call kinds this type supports
+	kinds     []string // call kinds this type supports
 	newTarget func() target
 	newModel  func() model
 	render    func(c call, fact string) (string, bool) // expected rendering of the real return for a fact; false = not comparable
-	drvPrefix string                    // driver line prefix ("M", "D", "Q 2", "DQ 2 2")
+	drvPrefix string                                   // driver line prefix ("M", "D", "Q 2", "DQ 2 2")
 	gen       func(r *vh.Rng, kinds []string) call
 }
 
@@ -110,7 +110,11 @@ type family struct {
 type assoc struct{ k, v int }
 type mapModel struct{ es []assoc }
 
-func (m *mapModel) clone() model { c := &mapModel{es: make([]assoc, len(m.es))}; copy(c.es, m.es); return c }
+func (m *mapModel) clone() model {
+	c := &mapModel{es: make([]assoc, len(m.es))}
+	copy(c.es, m.es)
+	return c
+}
 func (m *mapModel) key() string {
 	var b strings.Builder
 	for i, e := range m.es {
@@ -405,7 +409,11 @@ func mapFamily(c ctor) *family {
 
 type dequeModel struct{ xs []int }
 
-func (m *dequeModel) clone() model { c := &dequeModel{xs: make([]int, len(m.xs))}; copy(c.xs, m.xs); return c }
+func (m *dequeModel) clone() model {
+	c := &dequeModel{xs: make([]int, len(m.xs))}
+	copy(c.xs, m.xs)
+	return c
+}
 func (m *dequeModel) key() string {
 	if len(m.xs) == 0 {
 		return "-"
